@@ -241,7 +241,10 @@ def check(ctx):
 def _discard_path(ctx):
     """C05.d: postponed runs that can no longer happen are aborted with setup + cleanup (shared with C02.a / C02.c)"""
     import core, c02
-    n = core.adopt(ctx, c02, lambda o: (o["rule"] == "C02.c" and any(k in o["key"] for k in ("discard", "run-path-always-replays", "detached-queue", "replays-element", "drop-only-after-run")))
+    n = core.adopt(ctx, c02, lambda o: (o["rule"] == "C02.c" and any(k in o["key"] for k in ("discard", "run-path-always-replays", "detached-queue", "replays-element", "drop-only-after-run",
+                                                                        # the root test decides who discards the postponed readers: a runner that
+                                                                        # mistakes itself for the root aborts runs that are still due
+                                                                        "counter-", "one-counter-increment", "root-", "pop_front loop on the root arm")))
                    or (o["rule"] == "C02.a" and any(k in o["key"] for k in ("single-disposition", "dispositions=", "abort-only"))), "C05.d")
     ctx.floor("C05.d", n, 8, "shared abort / discard obligations (C02.a, C02.c)")
     nd = core.adopt(ctx, c02, lambda o: o["rule"] == "C02.d" and "one-runner-call-per-path" in o["key"], "C05.d")
